@@ -24,6 +24,9 @@ for d in sorted(glob.glob(os.path.join(HERE, "seeded", "*-agent*"))):
         "detected_by": [{"check": c, "exit": int(rc), "signatures": sig.split()} for c, rc, sig in caught],
         "caught": any(int(rc) == 1 for _, rc, _ in caught),
     }
+    extra = os.path.join(d, "extra.json")   # hand-written additions (e.g. detection by the thorough tier only)
+    if os.path.exists(extra):
+        meta.update(json.load(open(extra)))
     json.dump(meta, open(os.path.join(d, "meta.json"), "w"), indent=1)
     for junk in ("suite.log", "apply.log"):
         p = os.path.join(d, junk)
